@@ -389,7 +389,12 @@ func (f *File) seekWithoutLocking(offset int64, whence int) (int64, error) {
 
 				// Hand the error to the reader instead of crashing the process
 				_ = writer.CloseWithError(err)
+
+				return
 			}
+
+			// If the restore ended without writing the file (i.e. the record at the indexed position is a directory), the reader still has to see the end
+			_ = writer.Close()
 		}()
 
 		f.readOpReader = reader
@@ -571,7 +576,12 @@ func (f *File) Read(p []byte) (n int, err error) {
 
 				// Hand the error to the reader instead of crashing the process
 				_ = writer.CloseWithError(err)
+
+				return
 			}
+
+			// If the restore ended without writing the file (i.e. the record at the indexed position is a directory), the reader still has to see the end
+			_ = writer.Close()
 		}()
 
 		f.readOpReader = reader
